@@ -10,6 +10,7 @@ mod s_pool;
 mod s_dhcp;
 mod s_acl;
 mod s_dns;
+mod rig;
 
 /// Virtual wall clock: when >= 0, every CLOCK_REALTIME read in this process (Rust std and C
 /// libraries alike) returns this many seconds. The symbol overrides libc's at static link time.
@@ -57,6 +58,7 @@ fn run_case(line: &str) -> String {
         "bucket" => s_dns::bucket(args),
         "ratelimit" => s_dns::ratelimit(args),
         "cache" => s_dns::cache(args),
+        "route" => s_dns::route(args),
         _ => format!("bad-suite:{}", suite),
     }));
     match r {
